@@ -8,6 +8,16 @@ PY = '/venv/bin/python'
 
 # property -> (category, level text, level note, technique, design ref)
 CLAIMED = {
+    'C12': ('other',
+            'Static rules on AtomicWriter and BSP.save: the destination path is only ever the argument of the final replace() (never opened, '
+            'truncated or unlinked) so, given atomic rename, it holds old or new contents at every kill point; on the statement CFG of __exit__ with '
+            'exceptional edges out of close/replace/unlink (path-sensitive in constant boolean guard flags): replace() is reached only after the '
+            'handle was closed and only when the body did not raise, and every exit that did not complete replace() attempts to unlink the temp '
+            'file; the temp file is a sibling created with exclusive mode, retried only on FileExistsError; BSP.save writes only through the handle.',
+            'Trusted: CPython ast, engine/cfg.py. Assumes os.replace is atomic within a directory and that mode "x" creation is exclusive. Two-process '
+            'interleavings beyond exclusive creation, fsync and power loss are not claimed.',
+            'static: who-may-touch rule on the destination path + CFG must-pass-through with exceptional edges',
+            'DESIGN.md section 3, C12'),
     'C17': ('other',
             'Repository-specific static rules: (N1) may-alias analysis of collapse_one with the `file` parameter as root - no store/del/augmented '
             'assignment/mutating call (incl. localise, add_out, remove...) on any name that may alias the template, and every object handed to the '
